@@ -32,7 +32,7 @@ CONSTANTS Tier,        \* "quick" | "thorough"
 Worlds ==
   [w2 |-> [dim |-> 2, T |-> <<5, 4>>, lin |-> <<TRUE, FALSE>>, ori |-> <<TRUE, TRUE>>,   heavy |-> FALSE],
    w3 |-> [dim |-> 3, T |-> <<4, 3>>, lin |-> <<TRUE, FALSE>>, ori |-> <<FALSE, FALSE>>, heavy |-> FALSE],
-   s2 |-> [dim |-> 2, T |-> <<3, 2>>, lin |-> <<TRUE, TRUE>>,  ori |-> <<FALSE, TRUE>>,  heavy |-> TRUE],
+   s2 |-> [dim |-> 2, T |-> <<2, 1>>, lin |-> <<TRUE, TRUE>>,  ori |-> <<FALSE, TRUE>>,  heavy |-> TRUE],
    s3 |-> [dim |-> 3, T |-> <<3, 1>>, lin |-> <<TRUE, TRUE>>,  ori |-> <<FALSE, FALSE>>, heavy |-> TRUE]]
 World == Worlds[WorldName]
 
